@@ -235,6 +235,12 @@ func RunStorageErrors(c *Ctx) {
 			if f == nil {
 				f = e.analyse(fi)
 			}
+			if f.widened {
+				// the path-sensitive state set was collapsed: a "fail" fact may have been lost, the rule cannot decide
+				c.R.Find(Finding{Rule: "E5.R-storage", Func: fi.Name, Construct: "undecided (state explosion) for " + construct, Pos: pos,
+					Msg: "the path-state set of " + fi.Name + " exceeded the engine's cap and was widened; the error-edge rule cannot be decided for this function (raise e1StateCap or split the function)", Ctl: fi.Ctl})
+				continue
+			}
 			ct := f.tb.callTerm(sc.call)
 			failKey := fact("fail", ct).Key()
 			var bad *e1site
